@@ -1,4 +1,42 @@
-(* UnquoteTie.v -- see the header comment that is filled in at the end of the file's development. *)
+(* UnquoteTie.v -- the translated string decoder (gen/UnquoteGen.v, written by tools/gounquote2v from getu4 and
+   unquoteBytes of v5/internal/json/decode.go on every run) computes the hand-written model Strings.unquote,
+   and never panics.
+
+     getu4_gen_spec               : getu4_gen l = Some (getu4z l) for EVERY l: getu4 never panics and is
+                                    Strings.getu4 (-1 for None); the byte arithmetic wraps around as in Go
+     unquote_full_gen_total       : for EVERY byte string s there is x with unquote_full_gen s = uq_of x
+                                    (UOk t or UFalse), where x = None if s is not a literal between two
+                                    quotes, and otherwise x is what the run of the step specification
+                                    spec_step (hand-written below, for every input) over the body gives
+     unquote_full_gen_no_panic    : for EVERY s: unquote_full_gen s <> UPanic /\ unquote_full_gen s <> UFuel
+                                    (no index, slice, store or EncodeRune out of range; the loops end
+                                    within their fuel length s + 1)
+     unquote_full_gen_is_unquote  : sbody body -> unquote_full_gen ([x22] ++ body ++ [x22]) = UOk (unquote body)
+                                    (sbody, Codec.v: exactly the bodies the scanner accepts, ill-formed
+                                    UTF-8 and lone surrogate escapes included)
+
+   What is modelled and not translated: utf8.DecodeRune (Utf8Rune.decode_rune), utf8.EncodeRune,
+   utf16.IsSurrogate, utf16.DecodeRune (Utf16Rune.v), and the reading of slices as lists of exactly their
+   length (see the header of tools/gounquote2v/main.go).
+
+   The proof is written against the MEANING of one loop step, not against its text:
+     step2_roomy : with w + 9 <= len b (the regrow test is false) one execution of the body of the second
+                   loop at r is SRet UFalse or SNext (r + k, put b w e, w + len e) where spec_step of the
+                   rest of the input is None or Some (k, e); len e <= 4, 1 <= k
+     step2_grow  : with w + 5 <= len b and len b - 8 <= w the step is the step on the regrown buffer
+                   grow b w (twice the length plus 8, the first w bytes kept)
+     step1_spec  : the first loop breaks or advances over k bytes that spec_step copies
+   They are proved by evaluating the generated term with tactics that decide whatever integer test, bounds
+   test and read of s they meet from the context (zdecide, guards, rd), so harmless rewrites go through
+   and behavioural ones fail in the branch they touch.
+
+   THE BUFFER INVARIANT of the second loop (loop2_runs): at the top of every iteration
+       0 <= r,  0 <= w,  w + 5 <= len b     (and the first w bytes of b are what has been decoded so far)
+   The regrow test `w >= len(b) - 2*UTFMax` then gives  w + 9 <= len b  (either it is false, or the new
+   length 2*(len b + 4) >= w + 9), every write is at most 4 bytes (ASCII / escape: a store at w < len b;
+   EncodeRune of at most 4 bytes at w with w + 4 <= len b), hence w' + 5 <= len b again.  The bound is
+   tight: a four-byte write at w = len b - 9 ends at w' = len b - 5.  Initially len b = len s + 8 and
+   w = r <= len s.  r grows by k >= 1 in every step: the fuel length s + 1 suffices. *)
 From Coq Require Import Lia.
 From JP Require Import Bytes Strings Utf8Rune Utf16Rune Codec.
 From JP.gen Require Import UnquoteGen.
@@ -840,6 +878,340 @@ Proof.
   intro S. destruct (unquote_full_gen_total ([x22] ++ body ++ [x22])) as (x & Rx & E).
   rewrite lit_body_quoted in Rx. rewrite E, (runs_sbody body x Rx S). reflexivity.
 Qed.
+
+(* ------------------------------------------------------------------ examples
+   The right-hand sides are what the Go function returns (getu4 and unquoteBytes copied textually from
+   decode.go into a scratch main package and run, go1.23.5): the translated function computes them by
+   vm_compute; for the bodies the scanner accepts so does the model (ex_model_...).
+   Escapes, \uXXXX in upper and lower case, a surrogate pair and the bounds of the pair ranges, lone high and
+   low surrogates at the end and in the middle, a high surrogate followed by something else, hex digits just
+   outside the three ranges, truncated and unknown escapes, control bytes, well-formed UTF-8 (early return
+   of the first loop), ill-formed UTF-8, and ill-formed bytes followed by a long tail (the regrow path, once
+   and twice). *)
+Example ex_empty :
+  unquote_full_gen [x22; x22] =
+  UOk [].
+Proof. vm_compute. reflexivity. Qed.
+
+Example ex_model_empty :
+  unquote [] =
+  [].
+Proof. vm_compute. reflexivity. Qed.
+
+Example ex_plain :
+  unquote_full_gen [x22; x68; x65; x6c; x6c; x6f; x2c; x20; x77; x6f; x72; x6c; x64; x22] =
+  UOk [x68; x65; x6c; x6c; x6f; x2c; x20; x77; x6f; x72; x6c; x64].
+Proof. vm_compute. reflexivity. Qed.
+
+Example ex_model_plain :
+  unquote [x68; x65; x6c; x6c; x6f; x2c; x20; x77; x6f; x72; x6c; x64] =
+  [x68; x65; x6c; x6c; x6f; x2c; x20; x77; x6f; x72; x6c; x64].
+Proof. vm_compute. reflexivity. Qed.
+
+Example ex_escapes :
+  unquote_full_gen [x22; x61; x5c; x22; x5c; x5c; x5c; x2f; x5c; x62; x5c; x66; x5c; x6e; x5c; x72; x5c; x74; x7a; x22] =
+  UOk [x61; x22; x5c; x2f; x08; x0c; x0a; x0d; x09; x7a].
+Proof. vm_compute. reflexivity. Qed.
+
+Example ex_model_escapes :
+  unquote [x61; x5c; x22; x5c; x5c; x5c; x2f; x5c; x62; x5c; x66; x5c; x6e; x5c; x72; x5c; x74; x7a] =
+  [x61; x22; x5c; x2f; x08; x0c; x0a; x0d; x09; x7a].
+Proof. vm_compute. reflexivity. Qed.
+
+Example ex_escape_apostrophe :
+  unquote_full_gen [x22; x61; x5c; x27; x7a; x22] =
+  UOk [x61; x27; x7a].
+Proof. vm_compute. reflexivity. Qed.
+
+Example ex_u_bmp :
+  unquote_full_gen [x22; x5c; x75; x30; x30; x34; x31; x5c; x75; x30; x30; x65; x39; x5c; x75; x32; x30; x61; x63; x5c; x75; x66; x66; x66; x66; x5c; x75; x30; x30; x30; x30; x22] =
+  UOk [x41; xc3; xa9; xe2; x82; xac; xef; xbf; xbf; x00].
+Proof. vm_compute. reflexivity. Qed.
+
+Example ex_model_u_bmp :
+  unquote [x5c; x75; x30; x30; x34; x31; x5c; x75; x30; x30; x65; x39; x5c; x75; x32; x30; x61; x63; x5c; x75; x66; x66; x66; x66; x5c; x75; x30; x30; x30; x30] =
+  [x41; xc3; xa9; xe2; x82; xac; xef; xbf; xbf; x00].
+Proof. vm_compute. reflexivity. Qed.
+
+Example ex_u_pair :
+  unquote_full_gen [x22; x78; x5c; x75; x64; x38; x33; x64; x5c; x75; x64; x65; x30; x30; x79; x22] =
+  UOk [x78; xf0; x9f; x98; x80; x79].
+Proof. vm_compute. reflexivity. Qed.
+
+Example ex_model_u_pair :
+  unquote [x78; x5c; x75; x64; x38; x33; x64; x5c; x75; x64; x65; x30; x30; x79] =
+  [x78; xf0; x9f; x98; x80; x79].
+Proof. vm_compute. reflexivity. Qed.
+
+Example ex_u_pair_bounds :
+  unquote_full_gen [x22; x5c; x75; x64; x38; x30; x30; x5c; x75; x64; x63; x30; x30; x5c; x75; x64; x62; x66; x66; x5c; x75; x64; x66; x66; x66; x22] =
+  UOk [xf0; x90; x80; x80; xf4; x8f; xbf; xbf].
+Proof. vm_compute. reflexivity. Qed.
+
+Example ex_model_u_pair_bounds :
+  unquote [x5c; x75; x64; x38; x30; x30; x5c; x75; x64; x63; x30; x30; x5c; x75; x64; x62; x66; x66; x5c; x75; x64; x66; x66; x66] =
+  [xf0; x90; x80; x80; xf4; x8f; xbf; xbf].
+Proof. vm_compute. reflexivity. Qed.
+
+Example ex_u_hex_upper_lower :
+  unquote_full_gen [x22; x5c; x75; x44; x38; x33; x44; x5c; x75; x64; x45; x30; x30; x5c; x75; x30; x30; x45; x39; x5c; x75; x41; x62; x43; x64; x5c; x75; x61; x62; x63; x64; x5c; x75; x41; x42; x43; x44; x5c; x75; x30; x39; x61; x66; x5c; x75; x30; x39; x41; x46; x22] =
+  UOk [xf0; x9f; x98; x80; xc3; xa9; xea; xaf; x8d; xea; xaf; x8d; xea; xaf; x8d; xe0; xa6; xaf; xe0; xa6; xaf].
+Proof. vm_compute. reflexivity. Qed.
+
+Example ex_model_u_hex_upper_lower :
+  unquote [x5c; x75; x44; x38; x33; x44; x5c; x75; x64; x45; x30; x30; x5c; x75; x30; x30; x45; x39; x5c; x75; x41; x62; x43; x64; x5c; x75; x61; x62; x63; x64; x5c; x75; x41; x42; x43; x44; x5c; x75; x30; x39; x61; x66; x5c; x75; x30; x39; x41; x46] =
+  [xf0; x9f; x98; x80; xc3; xa9; xea; xaf; x8d; xea; xaf; x8d; xea; xaf; x8d; xe0; xa6; xaf; xe0; xa6; xaf].
+Proof. vm_compute. reflexivity. Qed.
+
+Example ex_u_lone_high_end :
+  unquote_full_gen [x22; x78; x5c; x75; x64; x38; x33; x64; x22] =
+  UOk [x78; xef; xbf; xbd].
+Proof. vm_compute. reflexivity. Qed.
+
+Example ex_model_u_lone_high_end :
+  unquote [x78; x5c; x75; x64; x38; x33; x64] =
+  [x78; xef; xbf; xbd].
+Proof. vm_compute. reflexivity. Qed.
+
+Example ex_u_lone_low_end :
+  unquote_full_gen [x22; x78; x5c; x75; x64; x65; x30; x30; x22] =
+  UOk [x78; xef; xbf; xbd].
+Proof. vm_compute. reflexivity. Qed.
+
+Example ex_model_u_lone_low_end :
+  unquote [x78; x5c; x75; x64; x65; x30; x30] =
+  [x78; xef; xbf; xbd].
+Proof. vm_compute. reflexivity. Qed.
+
+Example ex_u_lone_high_mid :
+  unquote_full_gen [x22; x5c; x75; x64; x38; x33; x64; x78; x79; x7a; x22] =
+  UOk [xef; xbf; xbd; x78; x79; x7a].
+Proof. vm_compute. reflexivity. Qed.
+
+Example ex_model_u_lone_high_mid :
+  unquote [x5c; x75; x64; x38; x33; x64; x78; x79; x7a] =
+  [xef; xbf; xbd; x78; x79; x7a].
+Proof. vm_compute. reflexivity. Qed.
+
+Example ex_u_lone_low_mid :
+  unquote_full_gen [x22; x5c; x75; x64; x65; x30; x30; x78; x79; x7a; x22] =
+  UOk [xef; xbf; xbd; x78; x79; x7a].
+Proof. vm_compute. reflexivity. Qed.
+
+Example ex_model_u_lone_low_mid :
+  unquote [x5c; x75; x64; x65; x30; x30; x78; x79; x7a] =
+  [xef; xbf; xbd; x78; x79; x7a].
+Proof. vm_compute. reflexivity. Qed.
+
+Example ex_u_high_then_bmp :
+  unquote_full_gen [x22; x5c; x75; x64; x38; x33; x64; x5c; x75; x30; x30; x34; x31; x22] =
+  UOk [xef; xbf; xbd; x41].
+Proof. vm_compute. reflexivity. Qed.
+
+Example ex_model_u_high_then_bmp :
+  unquote [x5c; x75; x64; x38; x33; x64; x5c; x75; x30; x30; x34; x31] =
+  [xef; xbf; xbd; x41].
+Proof. vm_compute. reflexivity. Qed.
+
+Example ex_u_high_high_low :
+  unquote_full_gen [x22; x5c; x75; x64; x38; x33; x64; x5c; x75; x64; x38; x33; x64; x5c; x75; x64; x65; x30; x30; x22] =
+  UOk [xef; xbf; xbd; xf0; x9f; x98; x80].
+Proof. vm_compute. reflexivity. Qed.
+
+Example ex_model_u_high_high_low :
+  unquote [x5c; x75; x64; x38; x33; x64; x5c; x75; x64; x38; x33; x64; x5c; x75; x64; x65; x30; x30] =
+  [xef; xbf; xbd; xf0; x9f; x98; x80].
+Proof. vm_compute. reflexivity. Qed.
+
+Example ex_u_low_high :
+  unquote_full_gen [x22; x5c; x75; x64; x65; x30; x30; x5c; x75; x64; x38; x33; x64; x22] =
+  UOk [xef; xbf; xbd; xef; xbf; xbd].
+Proof. vm_compute. reflexivity. Qed.
+
+Example ex_model_u_low_high :
+  unquote [x5c; x75; x64; x65; x30; x30; x5c; x75; x64; x38; x33; x64] =
+  [xef; xbf; xbd; xef; xbf; xbd].
+Proof. vm_compute. reflexivity. Qed.
+
+Example ex_u_high_then_backslash_n :
+  unquote_full_gen [x22; x5c; x75; x64; x62; x66; x66; x5c; x6e; x22] =
+  UOk [xef; xbf; xbd; x0a].
+Proof. vm_compute. reflexivity. Qed.
+
+Example ex_model_u_high_then_backslash_n :
+  unquote [x5c; x75; x64; x62; x66; x66; x5c; x6e] =
+  [xef; xbf; xbd; x0a].
+Proof. vm_compute. reflexivity. Qed.
+
+Example ex_u_high_then_short :
+  unquote_full_gen [x22; x5c; x75; x64; x38; x33; x64; x5c; x75; x31; x32; x22] =
+  UFalse.
+Proof. vm_compute. reflexivity. Qed.
+
+Example ex_u_d7ff_e000 :
+  unquote_full_gen [x22; x5c; x75; x64; x37; x66; x66; x5c; x75; x65; x30; x30; x30; x22] =
+  UOk [xed; x9f; xbf; xee; x80; x80].
+Proof. vm_compute. reflexivity. Qed.
+
+Example ex_model_u_d7ff_e000 :
+  unquote [x5c; x75; x64; x37; x66; x66; x5c; x75; x65; x30; x30; x30] =
+  [xed; x9f; xbf; xee; x80; x80].
+Proof. vm_compute. reflexivity. Qed.
+
+Example ex_u_bad_hex_g :
+  unquote_full_gen [x22; x5c; x75; x30; x30; x67; x30; x22] =
+  UFalse.
+Proof. vm_compute. reflexivity. Qed.
+
+Example ex_u_bad_hex_G :
+  unquote_full_gen [x22; x5c; x75; x30; x30; x47; x30; x22] =
+  UFalse.
+Proof. vm_compute. reflexivity. Qed.
+
+Example ex_u_bad_hex_colon :
+  unquote_full_gen [x22; x5c; x75; x30; x30; x3a; x30; x22] =
+  UFalse.
+Proof. vm_compute. reflexivity. Qed.
+
+Example ex_u_bad_hex_slash :
+  unquote_full_gen [x22; x5c; x75; x30; x30; x2f; x30; x22] =
+  UFalse.
+Proof. vm_compute. reflexivity. Qed.
+
+Example ex_u_bad_hex_at :
+  unquote_full_gen [x22; x5c; x75; x30; x30; x40; x30; x22] =
+  UFalse.
+Proof. vm_compute. reflexivity. Qed.
+
+Example ex_u_bad_hex_backquote :
+  unquote_full_gen [x22; x5c; x75; x30; x30; x60; x30; x22] =
+  UFalse.
+Proof. vm_compute. reflexivity. Qed.
+
+Example ex_u_bad_hex_high_byte :
+  unquote_full_gen [x22; x5c; x75; x30; x30; xe9; x30; x22] =
+  UFalse.
+Proof. vm_compute. reflexivity. Qed.
+
+Example ex_u_truncated :
+  unquote_full_gen [x22; x5c; x75; x31; x32; x22] =
+  UFalse.
+Proof. vm_compute. reflexivity. Qed.
+
+Example ex_bad_escape :
+  unquote_full_gen [x22; x61; x5c; x78; x22] =
+  UFalse.
+Proof. vm_compute. reflexivity. Qed.
+
+Example ex_backslash_at_end :
+  unquote_full_gen [x22; x61; x62; x63; x5c; x22] =
+  UFalse.
+Proof. vm_compute. reflexivity. Qed.
+
+Example ex_control :
+  unquote_full_gen [x22; x61; x01; x62; x22] =
+  UFalse.
+Proof. vm_compute. reflexivity. Qed.
+
+Example ex_inner_quote :
+  unquote_full_gen [x22; x61; x22; x62; x22] =
+  UFalse.
+Proof. vm_compute. reflexivity. Qed.
+
+Example ex_utf8_valid_only :
+  unquote_full_gen [x22; x68; xc3; xa9; x20; xe2; x82; xac; x20; xf0; x9f; x98; x80; xef; xbf; xbd; x22] =
+  UOk [x68; xc3; xa9; x20; xe2; x82; xac; x20; xf0; x9f; x98; x80; xef; xbf; xbd].
+Proof. vm_compute. reflexivity. Qed.
+
+Example ex_model_utf8_valid_only :
+  unquote [x68; xc3; xa9; x20; xe2; x82; xac; x20; xf0; x9f; x98; x80; xef; xbf; xbd] =
+  [x68; xc3; xa9; x20; xe2; x82; xac; x20; xf0; x9f; x98; x80; xef; xbf; xbd].
+Proof. vm_compute. reflexivity. Qed.
+
+Example ex_utf8_valid_after_escape :
+  unquote_full_gen [x22; x5c; x6e; x68; xc3; xa9; x20; xe2; x82; xac; x20; xf0; x9f; x98; x80; x22] =
+  UOk [x0a; x68; xc3; xa9; x20; xe2; x82; xac; x20; xf0; x9f; x98; x80].
+Proof. vm_compute. reflexivity. Qed.
+
+Example ex_model_utf8_valid_after_escape :
+  unquote [x5c; x6e; x68; xc3; xa9; x20; xe2; x82; xac; x20; xf0; x9f; x98; x80] =
+  [x0a; x68; xc3; xa9; x20; xe2; x82; xac; x20; xf0; x9f; x98; x80].
+Proof. vm_compute. reflexivity. Qed.
+
+Example ex_illformed :
+  unquote_full_gen [x22; xff; x20; xc0; x80; x20; xe2; x80; x20; xed; xa0; x80; x20; xf4; x90; x80; x80; x20; xe2; x22] =
+  UOk [xef; xbf; xbd; x20; xef; xbf; xbd; xef; xbf; xbd; x20; xef; xbf; xbd; xef; xbf; xbd; x20; xef; xbf; xbd; xef; xbf; xbd; xef; xbf; xbd; x20; xef; xbf; xbd; xef; xbf; xbd; xef; xbf; xbd; xef; xbf; xbd; x20; xef; xbf; xbd].
+Proof. vm_compute. reflexivity. Qed.
+
+Example ex_model_illformed :
+  unquote [xff; x20; xc0; x80; x20; xe2; x80; x20; xed; xa0; x80; x20; xf4; x90; x80; x80; x20; xe2] =
+  [xef; xbf; xbd; x20; xef; xbf; xbd; xef; xbf; xbd; x20; xef; xbf; xbd; xef; xbf; xbd; x20; xef; xbf; xbd; xef; xbf; xbd; xef; xbf; xbd; x20; xef; xbf; xbd; xef; xbf; xbd; xef; xbf; xbd; xef; xbf; xbd; x20; xef; xbf; xbd].
+Proof. vm_compute. reflexivity. Qed.
+
+Example ex_regrow_5_bad_long_tail :
+  unquote_full_gen [x22; x80; x80; x80; x80; x80; x61; x62; x63; x64; x65; x66; x67; x68; x69; x6a; x6b; x6c; x6d; x6e; x6f; x70; x71; x72; x73; x74; x75; x76; x77; x78; x79; x7a; x30; x31; x32; x33; x34; x35; x36; x37; x38; x39; x22] =
+  UOk [xef; xbf; xbd; xef; xbf; xbd; xef; xbf; xbd; xef; xbf; xbd; xef; xbf; xbd; x61; x62; x63; x64; x65; x66; x67; x68; x69; x6a; x6b; x6c; x6d; x6e; x6f; x70; x71; x72; x73; x74; x75; x76; x77; x78; x79; x7a; x30; x31; x32; x33; x34; x35; x36; x37; x38; x39].
+Proof. vm_compute. reflexivity. Qed.
+
+Example ex_model_regrow_5_bad_long_tail :
+  unquote [x80; x80; x80; x80; x80; x61; x62; x63; x64; x65; x66; x67; x68; x69; x6a; x6b; x6c; x6d; x6e; x6f; x70; x71; x72; x73; x74; x75; x76; x77; x78; x79; x7a; x30; x31; x32; x33; x34; x35; x36; x37; x38; x39] =
+  [xef; xbf; xbd; xef; xbf; xbd; xef; xbf; xbd; xef; xbf; xbd; xef; xbf; xbd; x61; x62; x63; x64; x65; x66; x67; x68; x69; x6a; x6b; x6c; x6d; x6e; x6f; x70; x71; x72; x73; x74; x75; x76; x77; x78; x79; x7a; x30; x31; x32; x33; x34; x35; x36; x37; x38; x39].
+Proof. vm_compute. reflexivity. Qed.
+
+Example ex_regrow_12_bad_tail :
+  unquote_full_gen [x22; xff; xff; xff; xff; xff; xff; xff; xff; xff; xff; xff; xff; x74; x61; x69; x6c; x20; x74; x61; x69; x6c; x20; x74; x61; x69; x6c; x20; x74; x61; x69; x6c; x20; x74; x61; x69; x6c; x20; x74; x61; x69; x6c; x20; x74; x61; x69; x6c; x20; x74; x61; x69; x6c; x22] =
+  UOk [xef; xbf; xbd; xef; xbf; xbd; xef; xbf; xbd; xef; xbf; xbd; xef; xbf; xbd; xef; xbf; xbd; xef; xbf; xbd; xef; xbf; xbd; xef; xbf; xbd; xef; xbf; xbd; xef; xbf; xbd; xef; xbf; xbd; x74; x61; x69; x6c; x20; x74; x61; x69; x6c; x20; x74; x61; x69; x6c; x20; x74; x61; x69; x6c; x20; x74; x61; x69; x6c; x20; x74; x61; x69; x6c; x20; x74; x61; x69; x6c; x20; x74; x61; x69; x6c].
+Proof. vm_compute. reflexivity. Qed.
+
+Example ex_model_regrow_12_bad_tail :
+  unquote [xff; xff; xff; xff; xff; xff; xff; xff; xff; xff; xff; xff; x74; x61; x69; x6c; x20; x74; x61; x69; x6c; x20; x74; x61; x69; x6c; x20; x74; x61; x69; x6c; x20; x74; x61; x69; x6c; x20; x74; x61; x69; x6c; x20; x74; x61; x69; x6c; x20; x74; x61; x69; x6c] =
+  [xef; xbf; xbd; xef; xbf; xbd; xef; xbf; xbd; xef; xbf; xbd; xef; xbf; xbd; xef; xbf; xbd; xef; xbf; xbd; xef; xbf; xbd; xef; xbf; xbd; xef; xbf; xbd; xef; xbf; xbd; xef; xbf; xbd; x74; x61; x69; x6c; x20; x74; x61; x69; x6c; x20; x74; x61; x69; x6c; x20; x74; x61; x69; x6c; x20; x74; x61; x69; x6c; x20; x74; x61; x69; x6c; x20; x74; x61; x69; x6c; x20; x74; x61; x69; x6c].
+Proof. vm_compute. reflexivity. Qed.
+
+Example ex_regrow_twice :
+  unquote_full_gen [x22; xc0; xc0; xc0; xc0; xc0; xc0; xc0; xc0; xc0; xc0; xc0; xc0; xc0; xc0; xc0; xc0; xc0; xc0; xc0; xc0; xc0; xc0; xc0; xc0; xc0; xc0; xc0; xc0; xc0; xc0; xc0; xc0; xc0; xc0; xc0; xc0; xc0; xc0; xc0; xc0; x5c; x75; x64; x38; x33; x64; x5c; x75; x64; x65; x30; x30; x22] =
+  UOk [xef; xbf; xbd; xef; xbf; xbd; xef; xbf; xbd; xef; xbf; xbd; xef; xbf; xbd; xef; xbf; xbd; xef; xbf; xbd; xef; xbf; xbd; xef; xbf; xbd; xef; xbf; xbd; xef; xbf; xbd; xef; xbf; xbd; xef; xbf; xbd; xef; xbf; xbd; xef; xbf; xbd; xef; xbf; xbd; xef; xbf; xbd; xef; xbf; xbd; xef; xbf; xbd; xef; xbf; xbd; xef; xbf; xbd; xef; xbf; xbd; xef; xbf; xbd; xef; xbf; xbd; xef; xbf; xbd; xef; xbf; xbd; xef; xbf; xbd; xef; xbf; xbd; xef; xbf; xbd; xef; xbf; xbd; xef; xbf; xbd; xef; xbf; xbd; xef; xbf; xbd; xef; xbf; xbd; xef; xbf; xbd; xef; xbf; xbd; xef; xbf; xbd; xef; xbf; xbd; xef; xbf; xbd; xef; xbf; xbd; xf0; x9f; x98; x80].
+Proof. vm_compute. reflexivity. Qed.
+
+Example ex_model_regrow_twice :
+  unquote [xc0; xc0; xc0; xc0; xc0; xc0; xc0; xc0; xc0; xc0; xc0; xc0; xc0; xc0; xc0; xc0; xc0; xc0; xc0; xc0; xc0; xc0; xc0; xc0; xc0; xc0; xc0; xc0; xc0; xc0; xc0; xc0; xc0; xc0; xc0; xc0; xc0; xc0; xc0; xc0; x5c; x75; x64; x38; x33; x64; x5c; x75; x64; x65; x30; x30] =
+  [xef; xbf; xbd; xef; xbf; xbd; xef; xbf; xbd; xef; xbf; xbd; xef; xbf; xbd; xef; xbf; xbd; xef; xbf; xbd; xef; xbf; xbd; xef; xbf; xbd; xef; xbf; xbd; xef; xbf; xbd; xef; xbf; xbd; xef; xbf; xbd; xef; xbf; xbd; xef; xbf; xbd; xef; xbf; xbd; xef; xbf; xbd; xef; xbf; xbd; xef; xbf; xbd; xef; xbf; xbd; xef; xbf; xbd; xef; xbf; xbd; xef; xbf; xbd; xef; xbf; xbd; xef; xbf; xbd; xef; xbf; xbd; xef; xbf; xbd; xef; xbf; xbd; xef; xbf; xbd; xef; xbf; xbd; xef; xbf; xbd; xef; xbf; xbd; xef; xbf; xbd; xef; xbf; xbd; xef; xbf; xbd; xef; xbf; xbd; xef; xbf; xbd; xef; xbf; xbd; xef; xbf; xbd; xef; xbf; xbd; xf0; x9f; x98; x80].
+Proof. vm_compute. reflexivity. Qed.
+
+Example ex_regrow_bad_then_escapes :
+  unquote_full_gen [x22; x80; x80; x80; x80; x80; x80; x5c; x6e; x5c; x6e; x5c; x6e; x5c; x6e; x5c; x6e; x5c; x6e; x5c; x6e; x5c; x6e; x5c; x6e; x5c; x6e; x5c; x6e; x5c; x6e; x5c; x6e; x5c; x6e; x5c; x6e; x5c; x6e; x5c; x6e; x5c; x6e; x5c; x6e; x5c; x6e; x80; x80; x80; x22] =
+  UOk [xef; xbf; xbd; xef; xbf; xbd; xef; xbf; xbd; xef; xbf; xbd; xef; xbf; xbd; xef; xbf; xbd; x0a; x0a; x0a; x0a; x0a; x0a; x0a; x0a; x0a; x0a; x0a; x0a; x0a; x0a; x0a; x0a; x0a; x0a; x0a; x0a; xef; xbf; xbd; xef; xbf; xbd; xef; xbf; xbd].
+Proof. vm_compute. reflexivity. Qed.
+
+Example ex_model_regrow_bad_then_escapes :
+  unquote [x80; x80; x80; x80; x80; x80; x5c; x6e; x5c; x6e; x5c; x6e; x5c; x6e; x5c; x6e; x5c; x6e; x5c; x6e; x5c; x6e; x5c; x6e; x5c; x6e; x5c; x6e; x5c; x6e; x5c; x6e; x5c; x6e; x5c; x6e; x5c; x6e; x5c; x6e; x5c; x6e; x5c; x6e; x5c; x6e; x80; x80; x80] =
+  [xef; xbf; xbd; xef; xbf; xbd; xef; xbf; xbd; xef; xbf; xbd; xef; xbf; xbd; xef; xbf; xbd; x0a; x0a; x0a; x0a; x0a; x0a; x0a; x0a; x0a; x0a; x0a; x0a; x0a; x0a; x0a; x0a; x0a; x0a; x0a; x0a; xef; xbf; xbd; xef; xbf; xbd; xef; xbf; xbd].
+Proof. vm_compute. reflexivity. Qed.
+
+Example ex_no_quotes :
+  unquote_full_gen [x61; x62; x63] =
+  UFalse.
+Proof. vm_compute. reflexivity. Qed.
+
+Example ex_one_quote :
+  unquote_full_gen [x22] =
+  UFalse.
+Proof. vm_compute. reflexivity. Qed.
+
+Example ex_nil :
+  unquote_full_gen [] =
+  UFalse.
+Proof. vm_compute. reflexivity. Qed.
+
+Example ex_no_closing_quote :
+  unquote_full_gen [x22; x61; x62; x63] =
+  UFalse.
+Proof. vm_compute. reflexivity. Qed.
+
+Example ex_no_opening_quote :
+  unquote_full_gen [x61; x62; x63; x22] =
+  UFalse.
+Proof. vm_compute. reflexivity. Qed.
 
 Print Assumptions unquote_full_gen_total.
 Print Assumptions unquote_full_gen_no_panic.
